@@ -5,10 +5,11 @@ from . import core, httpgen as hg, grpc_gen as gg
 
 INVS = "AcceptedOnlyIfNumbered WellFormed NotInMessage LocationPartition DeliveredIntact InvokedIffValid ResultIntact ResponsePartition ClientRejectsInvalidResult"
 DEVIATIONS = ["int.narrowed_to_32_bits", "validate.absent_collection_length",
-              "tags.oneof_members_unchecked", "tags.unchecked_with_metadata", "tags.nested_types_unchecked"]
+              "tags.oneof_members_unchecked", "tags.unchecked_with_metadata", "tags.nested_types_unchecked",
+              "message.explicit_loses_required"]      # the last one is hypothetical (vacuity guard of the explicit-message family)
 # the family in which each deviation shows (vacuity runs)
 DEV_FAMILY = {"int.narrowed_to_32_bits": "req", "validate.absent_collection_length": "res", "tags.oneof_members_unchecked": "wf",
-              "tags.unchecked_with_metadata": "wf", "tags.nested_types_unchecked": "wf"}
+              "tags.unchecked_with_metadata": "wf", "tags.nested_types_unchecked": "wf", "message.explicit_loses_required": "xm"}
 
 
 def gen_vectors(ctx, fam, deviations="{}", label=None):
@@ -109,7 +110,7 @@ def val_tag(v):
 def short_case(c):
     v = c["v"]
     o = c.get("obs") or {}
-    return {"vector": {k: v[k] for k in ("fam", "pa", "ra", "stream", "tagmode", "withmd", "pv", "rv", "allow")},
+    return {"vector": {k: v.get(k) for k in ("fam", "pa", "ra", "stream", "tagmode", "withmd", "explicit", "raw", "pv", "rv", "allow")},
             "sent": c.get("sent"), "rsent": c.get("rsent"), "accepted": c["accepted"], "evalErrors": c["evalErrors"], "gen": c["gen"], "genDetail": c["genDetail"],
             "descriptorOK": c["descriptorOK"], "descriptorError": c["descriptorError"], "table": c["table"],
             "observed": {k: o[k] for k in o if not k.endswith("_raw")}, "delivered_raw": o.get("delivered_raw"), "returned_raw": o.get("returned_raw"),
@@ -178,7 +179,7 @@ def run_problems(c, fam):
     probs = []
     if o["anomalies"]:
         probs.append(("anomaly:" + ",".join(o["anomalies"]), ""))
-    if fam == "req":
+    if fam in ("req", "xm"):
         if o["where"] is not None and not where_ok(o["where"], al["where"]):
             probs.append(("where:%s" % "+".join(o["where"] or ["none"]), ""))
         if o["invoked"]:
@@ -190,6 +191,8 @@ def run_problems(c, fam):
                 probs.append(("invalid-reached-user-code", ""))
         elif al["mustInvoke"]:
             probs.append(("valid-rejected:%s" % o["errname"], o.get("errmsg", "")))
+        if v.get("raw"):
+            return probs
     else:
         if not o["invoked"]:
             probs.append(("fixed-request-rejected:%s" % o["errname"], o.get("errmsg", "")))
@@ -208,7 +211,7 @@ def run_problems(c, fam):
 
 # ------------------------------------------------------------------ explaining mismatches by named deviations
 def case_key(v):
-    return core.canon([gg.shape_of(v), v["pv"], v["rv"]])
+    return core.canon([gg.shape_of(v), v.get("raw", False), v["pv"], v["rv"]])
 
 
 def obs_class(a, sent, x):
@@ -240,6 +243,8 @@ def mech_sig(v):
     sig["invoked"] = m["invoked"]
     if m["invoked"]:
         sig["delivered"] = obs_class(v["pa"], v["pv"], m["delivered"])
+        if v.get("raw"):
+            return sig
         sig["rwhere"] = mech_loc(m["rwhere"], v["ra"], v["rv"])
         sig["cerr"] = m["cerr"]
         if m["cerr"] == "result":
@@ -262,6 +267,8 @@ def obs_sig(c):
     sig["invoked"] = o["invoked"]
     if o["invoked"]:
         sig["delivered"] = o["delivered"]
+        if v.get("raw"):
+            return sig
         sig["rwhere"] = gg.loc_of(o["rwhere"], v["ra"], v["rv"])
         sig["cerr"] = o["cerr"]
         if o["cerr"] == "result":
@@ -273,7 +280,7 @@ def trace_events(c, devs):
     """The case as a sequence of trace events for Trace_GRPCTransport.tla (None: the case has no complete record)."""
     v, o, t = c["v"], c["obs"], c["table"]
     evs = [{"ev": "reset", "pa": v["pa"], "ra": v["ra"], "stream": v["stream"], "tagmode": v["tagmode"], "withmd": v["withmd"],
-            "pv": v["pv"], "rv": v["rv"], "devs": devs, "case": c["id"]},
+            "explicit": v.get("explicit", False), "raw": v.get("raw", False), "pv": v["pv"], "rv": v["rv"], "devs": devs, "case": c["id"]},
            {"ev": "eval", "accepted": c["accepted"]}]
     if not c["accepted"]:
         return evs
@@ -295,6 +302,8 @@ def trace_events(c, devs):
         return evs
     evs.append({"ev": "server_decode", "kind": "payload", "class": o["delivered"]})
     evs.append({"ev": "invoke"})
+    if v.get("raw"):
+        return evs
     evs.append({"ev": "server_encode", "where": sig["rwhere"]})
     evs.append({"ev": "client_decode", "kind": o["cerr"], "class": o.get("returned") or "-"})
     return evs
@@ -318,7 +327,7 @@ class Explainer:
         if not uniq:
             return
         cases = "".join(json.dumps({"pa": v["pa"], "ra": v["ra"], "stream": v["stream"], "tagmode": v["tagmode"], "withmd": v["withmd"],
-                                    "pv": v["pv"], "rv": v["rv"]}) + "\n" for v in uniq.values())
+                                    "explicit": v.get("explicit", False), "raw": v.get("raw", False), "pv": v["pv"], "rv": v["rv"]}) + "\n" for v in uniq.values())
         devsets = "".join(json.dumps({"devs": d}) + "\n" for d in self.devsets)
         r = self.ctx.gen("mc/MC_GRPCTransport_Explain", "mc/MC_GRPCTransport_Explain.cfg", consts={"Family": '"%s"' % self.fam},
                          files={"cases.ndjson": cases, "devsets.ndjson": devsets},
